@@ -18,3 +18,22 @@ PROPS = {
         'technique': 'Coq proof over a model regenerated from the Go source by a translator (go2v) + differential correspondence + math/big monitor',
     },
 }
+
+ALLOC_TRUSTED = ['modelled not verified: bits-and-blooms/bitset New/Test/Set/Clear/NextClear (lib/Bitset.v); net.IP.To4/To16/Mask, IPMask.Size, CIDRMask, IPNet.Contains (lib/Net.v, byte-wise as in the Go source; the numeric meaning of Contains for CIDR masks is proved in proofs/NetProofs.v); sync.Mutex',
+                 'scope of the IPv6 theorems: pools as net.ParseCIDR yields them (native IPv6 16-byte base aligned to its mask, page-pool < 64); v4-mapped pools, pools handed an IPv4 CIDR and constructor rejections are covered by the correspondence check only']
+ALLOC_ASSUME = ['hint and freed prefix bytes are < 256 (Go byte); IPv6 theorems assume a valid6 pool; v4-mapped addresses are never inside a native IPv6 pool for net.IPNet.Contains (documented in DESIGN.md C07)']
+
+def _alloc(pid, text, thms):
+    return {
+        'props': 'props/%s.v' % pid,
+        'run_models': ['model/AllocRun.v'],
+        'trusted': ALLOC_TRUSTED, 'assumes': ALLOC_ASSUME,
+        'level_text': text + ' Theorems (coq/props/%s.v): %s; proved for every pool geometry and every history (induction over the op list, refinement of both Go allocators to one index-level allocator over a bitset with a NoDup/in-range invariant). The models of bitmap.go / bitmap_ipv4.go are run against the real allocators on generated histories (hints free/taken/outside/malformed; frees outstanding/sub-prefix/unallocated/below/above/malformed), and independent monitors restate the property on the implementation.' % (pid, thms),
+        'level_note': 'Trusted: Coq kernel; the hand-written Gallina model of the two allocators, of the bitset library subset and of the net helpers, tied to the code by the differential correspondence on every run (not by translation); generator quality bounds that tie. All schedules: each Allocate/Free is one critical section under the allocator mutex (lock discipline re-extracted from the source, C16). No axioms.',
+        'technique': 'Coq proof (invariant + refinement to an abstract index allocator, induction over histories) + differential correspondence of the executable model against the Go allocators + monitors',
+    }
+
+PROPS['C04'] = _alloc('C04', 'No block is issued twice without a successful Free of it in between; outstanding blocks are pairwise disjoint.', 'alloc4_no_double_issue, alloc6_no_double_issue, outstanding6_disjoint, blocks_disjoint, irun_no_double_issue')
+PROPS['C05'] = _alloc('C05', 'Every allocation is a block of the pool of the right length; Allocate fails (no address available, state unchanged) iff all N blocks are outstanding; no other error or panic.', 'alloc4_in_range, alloc4_fails_iff_full, alloc6_shape, alloc6_fails_iff_full, new6_valid, new4_inv')
+PROPS['C06'] = _alloc('C06', 'Free succeeds iff the prefix names an outstanding block, then releases exactly it; otherwise error and no effect, for prefixes at any distance below/above the pool.', 'free4_ok_iff, to_offset4_iff, free6_ok_iff, free_idx6_outside, free_idx6_inside')
+PROPS['C07'] = _alloc('C07', 'A hint naming a free block is honoured exactly (4- and 16-byte IPv4 forms, any IPv6 address inside the block).', 'hint4_honoured, hint6_honoured, hint_idx6_inside, hint4_names')
